@@ -452,8 +452,16 @@ def install(lib):
         return Arr(z3.Lambda([j], z3.Select(a.a, z3.If(j + 1 < a.n, j + 1, 0))), a.n)
 
     def np_take(ex, a, i, axis=0, **k):
-        used(ex, "jnp.take(a, i) = a[i] (index clamped/ wrapped as jnp does for out-of-range is NOT modelled: in-range is an obligation)")
-        return ex.getitem(a, i)
+        used(ex, "jnp.take(a, i): negative indices wrap; an out-of-range index yields an unspecified fill value (mode='fill'), not an error")
+        if not isinstance(a, Arr) or axis not in (0, None):
+            return ex.getitem(a, i)
+        if isinstance(i, Arr):
+            jv = z3.Int("j!ew")
+            idx = norm_index(z3.Select(i.a, jv), a.n)
+            fill = z3.Function(f"take_fill!{next(ex.fresh_n)}", INT, a.sort())
+            return Arr(z3.Lambda([jv], z3.If(z3.And(idx >= 0, idx < a.n), z3.Select(a.a, idx), fill(jv))), i.n)
+        idx = norm_index(i, a.n)
+        return z3.If(z3.And(idx >= 0, idx < a.n), z3.Select(a.a, idx), ex.fresh("take_fill", a.sort()))
 
     def np_maximum(ex, a, b):
         a, b = num2(a, b)
@@ -533,7 +541,14 @@ def install(lib):
         used(ex, "tanh/arctanh: tanh in (-1,1), strictly monotone, arctanh(tanh(x)) = x, tanh(arctanh(y)) = y on (-1,1)")
         return ATANH(coerce(x, REAL))
 
-    common = dict(array=np_array, asarray=np_asarray, where=np_where, clip=np_clip, roll=np_roll, take=np_take, maximum=np_maximum, minimum=np_minimum,
+    def np_arange(ex, *a, **k):
+        if len(a) == 1:
+            n = a[0]
+            j = z3.Int("j!ew")
+            return Arr(z3.Lambda([j], j), n)
+        raise Unsupported("arange(lo, hi)")
+
+    common = dict(arange=np_arange, array=np_array, asarray=np_asarray, where=np_where, clip=np_clip, roll=np_roll, take=np_take, maximum=np_maximum, minimum=np_minimum,
                   isnan=np_isnan, ceil=np_ceil, floor=np_floor, sqrt=np_sqrt, zeros_like=np_zeros_like, ones_like=np_ones_like,
                   logical_and=np_logical("and"), logical_or=np_logical("or"), logical_not=np_logical_not, exp=np_exp, log=np_log, tanh=np_tanh,
                   arctanh=np_arctanh, abs=b_abs, square=lambda ex, x: ex.binop(ast.Mult(), x, x),
@@ -621,7 +636,21 @@ def install(lib):
             return ex.call(tf, list(ops), {})
         return ex.call(ff, list(ops), {})
 
-    lax = NS("jax.lax", {"cond": lax_cond, "stop_gradient": lambda ex, x: x})
+    def lax_fori_loop(ex, lo, hi, body, init):
+        h = ex.opts.get("fori_loop")
+        if h is None:
+            raise Unsupported("jax.lax.fori_loop needs an iteration contract (opts['fori_loop'])")
+        used(ex, "jax.lax.fori_loop(lo, hi, body, x) = body(hi-1, ... body(lo, x)) (iteration contract; body verified on an arbitrary carry)")
+        return h(ex, lo, hi, body, init)
+
+    def lax_scan(ex, f, init, xs=None, length=None, **k):
+        h = ex.opts.get("scan")
+        if h is None:
+            raise Unsupported("jax.lax.scan needs a fold contract (opts['scan'])")
+        used(ex, "jax.lax.scan(f, c, xs) folds f over the leading axis of xs and stacks the per-step outputs (fold contract; f verified on an arbitrary carry)")
+        return h(ex, f, init, xs, length)
+
+    lax = NS("jax.lax", {"cond": lax_cond, "stop_gradient": lambda ex, x: x, "fori_loop": lax_fori_loop, "scan": lax_scan})
     rnd = NS("jax.random", {})
     jaxns = NS("jax", {"tree_util": tree_util, "lax": lax, "numpy": jnp, "random": rnd, "Array": TypeTag("jax.Array"),
                        "tree_map": tree_map, "tree_leaves": tree_leaves})
@@ -639,7 +668,49 @@ def install(lib):
 
     lib.ns["time"] = NS("time", {"time": time_time, "sleep": lambda ex, s: None})
     lib.ns["distrax"] = NS("distrax", {"Distribution": TypeTag("distrax.Distribution")})
-    lib.ns["equinox"] = NS("equinox", {})
+    def eqx_tree_at(ex, where, tree, replace):
+        """functional update of the sub-tree selected by `where` (a lambda made of attribute / constant-subscript accesses)"""
+        used(ex, "equinox.tree_at(where, tree, replace) returns a copy of tree whose node selected by `where` is `replace`")
+        if not isinstance(where, Closure) or not isinstance(where.node, ast.Lambda):
+            raise Unsupported("tree_at with a non-lambda selector")
+        path = []
+        n = where.node.body
+        param = where.node.args.args[0].arg
+        while not (isinstance(n, ast.Name) and n.id == param):
+            if isinstance(n, ast.Attribute):
+                path.append(("attr", n.attr))
+                n = n.value
+            elif isinstance(n, ast.Subscript):
+                ex.frames.append(I.Frame({}, where.env_chain, where.module, "<where>"))
+                try:
+                    key = ex.key(ex.expr(n.slice))
+                finally:
+                    ex.frames.pop()
+                path.append(("item", key))
+                n = n.value
+            else:
+                raise Unsupported("tree_at selector shape")
+        path.reverse()
+
+        def upd(node, i):
+            if i == len(path):
+                return replace
+            kind, k = path[i]
+            if kind == "attr":
+                if not isinstance(node, Rec) or k not in node.f:
+                    raise RaiseEx("AttributeError", msg=str(k))
+                f = dict(node.f)
+                f[k] = upd(node.f[k], i + 1)
+                r = Rec(node.cls, f, module=node.module, frozen=node.frozen)
+                return r
+            if not isinstance(node, dict) or k not in node:
+                raise RaiseEx("KeyError", msg=str(k))
+            d = dict(node)
+            d[k] = upd(node[k], i + 1)
+            return d
+        return upd(tree, 0)
+
+    lib.ns["equinox"] = NS("equinox", {"tree_at": eqx_tree_at})
     lib.ns["networkx"] = NS("networkx", {})
     lib.ns["supergraph"] = NS("supergraph", {})
     lib.ns["traceback"] = NS("traceback", {})
